@@ -9,6 +9,8 @@
 -/
 import GoDebian.Model.Upload
 import GoDebian.Lemmas.Upload
+import GoDebian.Model.UploadPaths
+import GoDebian.Lemmas.Paths
 
 namespace GoDebian.Props.C20
 open GoDebian GoDebian.Upload
@@ -255,6 +257,94 @@ example :
       = some (⟨[d0, [], d0], 2⟩, [true, true]) ∧
     runW (B "a.dsc") [B "a.tar.gz"] ⟨[d0, [], []], 0⟩ [(.copy, 1), (.remove, 2)]
       = some (⟨[d0, [], []], 1⟩, [true, true]) := by
+  decide +kernel
+
+/-! ### the paths behind the names
+
+The model above works on names inside two directories.  These theorems say which paths the
+Go code builds from the handle's Filename, the destination and the listed names
+(`AbsFiles`, `filepath.Base`, string concatenation), and that for the names
+`checkListedFilename` lets through every one of them lies directly in the control file's
+own directory or directly in the destination.  (The attempt to prove `plain n → no '/' in n`
+for the previous `checkListedFilename` failed at n = "/": `filepath.Base("/") = "/"`; the Go
+code moved the whole upload directory for that name.  Repaired in /repo, see
+known_findings.json.) -/
+
+open GoDebian.Lemmas.Paths in
+/-- Copy / Move: for a handle whose Filename is the canonical absolute path `dir/f` and
+    listed names that pass `checkListedFilename`, the k-th call reads `dir/nₖ` and writes
+    `dest/nₖ`; the last one reads `dir/f` and writes `dest/f`. -/
+theorem C20_paths_plan (dir : List Bytes) (f dest : Bytes) (names : List Bytes)
+    (hd : ∀ c ∈ dir, PlainComp c) (hf : PlainComp f) (hn : names.all plain = true) :
+    planPaths (canon (dir ++ [f])) dest names =
+      names.map (fun n => (canon (dir ++ [n]), dest ++ [47] ++ n)) ++ [(canon (dir ++ [f]), dest ++ [47] ++ f)] := by
+  unfold planPaths
+  rw [base_canon_snoc dir hf]
+  congr 1
+  apply List.map_congr_left
+  intro n hm
+  have hp : PlainComp n := plain_PlainComp (List.all_eq_true.mp hn n hm)
+  have hsrc : Acc.absFile (canon (dir ++ [f])) n = canon (dir ++ [n]) := by
+    unfold Acc.absFile
+    rw [dir_canon_snoc hd hf, join_canon hd hp]
+  rw [hsrc, base_canon_snoc dir hp]
+
+open GoDebian.Lemmas.Paths in
+/-- every source path of the plan lies directly in the control file's directory, every
+    destination path is the destination directory plus a plain name -/
+theorem C20_paths_confined (dir : List Bytes) (f dest : Bytes) (names : List Bytes)
+    (hd : ∀ c ∈ dir, PlainComp c) (hf : PlainComp f) (hn : names.all plain = true) :
+    ∀ sd ∈ planPaths (canon (dir ++ [f])) dest names,
+      Path.dir sd.1 = Path.dir (canon (dir ++ [f])) ∧
+      ∃ n, PlainComp n ∧ sd.1 = canon (dir ++ [n]) ∧ sd.2 = dest ++ [47] ++ n := by
+  rw [C20_paths_plan dir f dest names hd hf hn]
+  intro sd hm
+  rw [dir_canon_snoc hd hf]
+  rcases List.mem_append.mp hm with hm | hm
+  · obtain ⟨n, hnm, rfl⟩ := List.mem_map.mp hm
+    have hp : PlainComp n := plain_PlainComp (List.all_eq_true.mp hn n hnm)
+    exact ⟨dir_canon_snoc hd hp, n, hp, rfl, rfl⟩
+  · simp only [List.mem_singleton] at hm
+    subst hm
+    exact ⟨dir_canon_snoc hd hf, f, hf, rfl, rfl⟩
+
+open GoDebian.Lemmas.Paths in
+/-- Remove deletes `dir/n` for every listed name and `dir/f` last -/
+theorem C20_paths_remove (dir : List Bytes) (f : Bytes) (names : List Bytes)
+    (hd : ∀ c ∈ dir, PlainComp c) (hf : PlainComp f) (hn : names.all plain = true) :
+    removePaths (canon (dir ++ [f])) names = names.map (fun n => canon (dir ++ [n])) ++ [canon (dir ++ [f])] := by
+  unfold removePaths
+  congr 1
+  apply List.map_congr_left
+  intro n hm
+  have hp : PlainComp n := plain_PlainComp (List.all_eq_true.mp hn n hm)
+  unfold Acc.absFile
+  rw [dir_canon_snoc hd hf, join_canon hd hp]
+
+open GoDebian.Lemmas.Paths in
+/-- after a successful Copy / Move the handle's Filename is `dest/f` -/
+theorem C20_paths_handle (dir : List Bytes) (f dest : Bytes) (hf : PlainComp f) :
+    newFilename (canon (dir ++ [f])) dest = dest ++ [47] ++ f := by
+  unfold newFilename; rw [base_canon_snoc dir hf]
+
+open GoDebian.Lemmas.Paths in
+/-- `checkListedFilename` accepts exactly the plain components -/
+theorem C20_plain_iff (n : Bytes) : plain n = true ↔ PlainComp n :=
+  ⟨plain_PlainComp, PlainComp_plain⟩
+
+/-- "/", "//", "a/", "/etc/passwd", "../x", "", ".", ".." are refused; "foo_1.0.tar.gz" is plain -/
+example :
+    let B := Bytes.ofString
+    [B "/", B "//", B "a/", B "/etc/passwd", B "../x", B "", B ".", B ".."].all (fun n => !plain n) = true ∧
+    plain (B "foo_1.0.tar.gz") = true := by
+  decide +kernel
+
+/-- the plan of a .dsc in /srv/incoming with two files, copied to /srv/queue -/
+example :
+    let B := Bytes.ofString
+    planPaths (B "/srv/incoming/a_1.dsc") (B "/srv/queue") [B "a_1.tar.gz", B "a_1.diff.gz"] =
+      [(B "/srv/incoming/a_1.tar.gz", B "/srv/queue/a_1.tar.gz"), (B "/srv/incoming/a_1.diff.gz", B "/srv/queue/a_1.diff.gz"),
+       (B "/srv/incoming/a_1.dsc", B "/srv/queue/a_1.dsc")] := by
   decide +kernel
 
 end GoDebian.Props.C20
